@@ -1,0 +1,48 @@
+//go:build verif
+
+// Contracts for the deductive checker in /verif (read only with -tags verif).
+
+package sm2ec
+
+// The group arithmetic of SM2P256Point is ASSUMED here (trusted contracts, not proved against the
+// field/assembly code): each point carries a ghost value ptv (an element of the abstract group), with
+// abstract operations SBMUL (k -> [k]G), SMUL (P, k -> [k]P), PADD, the x-coordinate PX, the point at
+// infinity PINF, and PDEC (decoding of an encoded point). Users are verified against these contracts.
+//@ ghost ptv : Int
+
+//@ func (*SM2P256Point).SetBytes trusted
+//@   params b
+//@   ensures err == nil ==> sameobj(result0, self) && result0 != nil && ghost(ptv, self) == PDEC(arr(b), offof(b), len(b))
+//@   ensures err != nil ==> result0 == nil
+//@   modifies *self, ghost(ptv, self)
+
+//@ func (*SM2P256Point).ScalarBaseMult trusted
+//@   params scalar
+//@   ensures err == nil ==> sameobj(result0, self) && result0 != nil && ghost(ptv, self) == SBMUL(BEV(arr(scalar), offof(scalar), len(scalar)))
+//@   ensures err != nil ==> result0 == nil
+//@   modifies *self, ghost(ptv, self)
+
+//@ func (*SM2P256Point).ScalarMult trusted
+//@   params q scalar
+//@   ensures err == nil ==> sameobj(result0, self) && result0 != nil && ghost(ptv, self) == SMUL(old(ghost(ptv, q)), BEV(arr(scalar), offof(scalar), len(scalar)))
+//@   ensures err != nil ==> result0 == nil
+//@   modifies *self, ghost(ptv, self)
+
+//@ func (*SM2P256Point).Add trusted
+//@   params r1 r2
+//@   ensures sameobj(result, self) && result != nil && ghost(ptv, self) == PADD(old(ghost(ptv, r1)), old(ghost(ptv, r2)))
+//@   modifies *self, ghost(ptv, self)
+
+// the encoding is the 65-byte uncompressed form, or one zero byte for the point at infinity
+//@ func (*SM2P256Point).Bytes trusted
+//@   ensures len(result) == 65 || (len(result) == 1 && result[0] == 0)
+//@   ensures len(result) == 1 <==> ghost(ptv, self) == PINF()
+//@   ensures len(result) == 65 ==> result[0] == 4 && BEV(arr(result), offof(result) + 1, 32) == PX(ghost(ptv, self)) && BEV(arr(result), offof(result) + 33, 32) == PY(ghost(ptv, self))
+//@   fresh result
+//@   modifies nothing
+
+//@ func (*SM2P256Point).BytesX trusted
+//@   ensures err == nil ==> len(result0) == 32 && BEV(arr(result0), offof(result0), 32) == PX(ghost(ptv, self)) && ghost(ptv, self) != PINF()
+//@   ensures err != nil <==> ghost(ptv, self) == PINF()
+//@   fresh result0
+//@   modifies nothing
